@@ -86,7 +86,7 @@ def geometry(rep, tier, timeout):
                     nominal["y[%d]" % j] = float(cmL[0, j, 1])
                 run_obligations(rep, "%s mirror [%s]" % (cls, lab), obs, timeout, replay=rp, levels=(1, 2), relate=[],
                                 family=lambda ob: "geometry: " + ob.meta["family"], nominal=nominal,
-                                fixed={"sweep": 20.0, "dihedral": 10.0, "span": 12.0})
+                                fixed={"sweep": (20.0, -20.0), "dihedral": (10.0, -10.0), "span": 12.0})
             # Taper keeps its mesh as an option
             scL = SymComp(G, "Taper", val=1.0, mesh=cmL, symmetry=symm, ref_axis_pos=0.25)
             scR = SymComp(G, "Taper", val=1.0, mesh=cmR, symmetry=symm, ref_axis_pos=0.25)
@@ -246,7 +246,7 @@ def aero(rep, tier, timeout):
         nominal.update({"circulations[%d]" % i: -0.7 - 0.1 * i for i in range(npan)})
         run_obligations(rep, "aero states mirror [%s]" % lab, obs, timeout, replay=rp, levels=(1, 2), relate=[], nominal=nominal,
                         family=lambda ob, symm=symm: "aero states (%s): %s" % ("left-half vs right-half symmetric model" if symm else "full span", ob.meta["family"]),
-                        fixed={"alpha": 3.0, "beta": 4.0, "v": 10.0, "rho": 1.1})
+                        fixed={"alpha": (3.0, -3.0), "beta": (4.0, -4.0), "v": 10.0, "rho": 1.1})
 
 
 def replay_aero(ob, env, sA, sB, m, symm, nym, om, cg):
@@ -379,7 +379,7 @@ def aero_mixed(rep, tier, timeout):
         nominal.update({"circulations[%d]" % i: -0.7 - 0.1 * i for i in range(n)})
         run_obligations(rep, "aero states, mixed handedness [%s]" % lab, obs, timeout, replay=rp, levels=(1, 2), relate=[], nominal=nominal,
                         family=lambda ob: "aero states (two symmetric surfaces, one re-described by its other half): " + ob.meta["family"],
-                        fixed={"alpha": 3.0, "v": 10.0, "rho": 1.1})
+                        fixed={"alpha": (3.0, -3.0), "v": 10.0, "rho": 1.1})
 
 
 def replay_mixed(w, tL, tR):
